@@ -16,10 +16,28 @@ inductive Reachable (cfg : Cfg) (progs : Tid → List Op) : State → Prop
 def execIds (s : State) : List Nat := s.execLog.map (·.1)
 
 /-- the command the solver has popped but not yet run -/
-def inflight (s : State) : List Nat :=
-  match s.spc with
+def inflightPc : SPc → List Nat
   | SPc.runAcqRes _ id _ => [id]
   | _ => []
+
+@[simp] theorem inflightPc_run (ctx : Ctx) (id : Nat) (c : Cmd) :
+    inflightPc (SPc.runAcqRes ctx id c) = [id] := rfl
+@[simp] theorem inflightPc_start : inflightPc SPc.start = [] := rfl
+@[simp] theorem inflightPc_acqQ1 : inflightPc SPc.acqQ1 = [] := rfl
+@[simp] theorem inflightPc_relQ1 : inflightPc SPc.relQ1 = [] := rfl
+@[simp] theorem inflightPc_acqQ2 : inflightPc SPc.acqQ2 = [] := rfl
+@[simp] theorem inflightPc_acqP : inflightPc SPc.acqP = [] := rfl
+@[simp] theorem inflightPc_ntaP : inflightPc SPc.ntaP = [] := rfl
+@[simp] theorem inflightPc_relP : inflightPc SPc.relP = [] := rfl
+@[simp] theorem inflightPc_waitQ : inflightPc SPc.waitQ = [] := rfl
+@[simp] theorem inflightPc_blocked : inflightPc SPc.blocked = [] := rfl
+@[simp] theorem inflightPc_reacqQ : inflightPc SPc.reacqQ = [] := rfl
+@[simp] theorem inflightPc_relQ2 : inflightPc SPc.relQ2 = [] := rfl
+@[simp] theorem inflightPc_crashed : inflightPc SPc.crashed = [] := rfl
+@[simp] theorem inflightPc_runRelC (ctx : Ctx) (id : Nat) : inflightPc (SPc.runRelC ctx id) = [] := rfl
+@[simp] theorem inflightPc_runRelRes (ctx : Ctx) : inflightPc (SPc.runRelRes ctx) = [] := rfl
+
+def inflight (s : State) : List Nat := inflightPc s.spc
 
 /-- the task id a dispatching thread has allocated but not yet appended -/
 def pendingId : IPc → Option Nat
@@ -105,37 +123,1146 @@ theorem runQueue_eq (cfg : Cfg) (ctx : Ctx) (s : State) :
     · right; exact ⟨_, by simp, rfl⟩
 
 
-/-- changes that touch none of the history-relevant fields -/
+/-- what a thread's new program counter must satisfy for the invariant to carry over -/
+structure PcOk (s s' : State) (old new : IPc) : Prop where
+  pend : ∀ id, pendingId new = some id → pendingId old = some id
+  plocked : ∀ c id, new = IPc.qAcqQ c id → id ∈ s'.cLocked
+  wants : ∀ k, wantsResult new = some k → k ∈ s.queuedLog
+  holds : ∀ k, holding new = some k → k ∈ execIds s
+
+/-- a program counter that carries no task id -/
+def Quiet (pc : IPc) : Prop := pendingId pc = none ∧ holding pc = none ∧ wantsResult pc = none
+
+theorem PcOk.of_quiet {s s' : State} {old new : IPc} (q : Quiet new) : PcOk s s' old new := by
+  obtain ⟨q1, q2, q3⟩ := q
+  constructor
+  · intro id h; rw [q1] at h; cases h
+  · intro c id h; subst h; cases q1
+  · intro k h; rw [q3] at h; cases h
+  · intro k h; rw [q2] at h; cases h
+
+/-- changes that touch neither the logs, the results nor the id counter -/
 theorem Inv.congr {s s' : State} (h : Inv s)
     (e1 : s'.queuedLog = s.queuedLog) (e2 : s'.execLog = s.execLog)
     (e3 : inflight s' ++ s'.queue = inflight s ++ s.queue)
-    (e4 : s'.nextId = s.nextId) (e5 : s'.th = s.th) (e6 : s'.results = s.results)
-    (e7 : s'.delivered = s.delivered) (e8 : s'.cLocked = s.cLocked)
-    (e9 : s'.lockmap = s.lockmap)
+    (e4 : s'.nextId = s.nextId)
+    (e5 : ∀ j, (s'.th j).pc = (s.th j).pc ∨ PcOk s s' (s.th j).pc (s'.th j).pc)
+    (e6 : s'.results = s.results)
+    (e7 : s'.delivered = s.delivered)
+    (e8a : ∀ k ∈ s.queuedLog, k ∈ s.cLocked → k ∈ s'.cLocked ∨ k ∈ execIds s)
+    (e8b : ∀ k ∈ s.cLocked, k ∉ s.queuedLog → k ∈ s'.cLocked)
+    (e9 : ∀ k ∈ s'.lockmap, k ∈ s.lockmap)
     (e10 : ∀ ctx id, s'.spc = SPc.runRelC ctx id → id ∈ execIds s) : Inv s' := by
   have hx : execIds s' = execIds s := by simp [execIds, e2]
+  have hp : ∀ j id, pendingId (s'.th j).pc = some id → pendingId (s.th j).pc = some id := by
+    intro j id hj
+    rcases e5 j with e | q
+    · rw [← e]; exact hj
+    · exact q.pend id hj
   constructor
   · rw [e1, hx, List.append_assoc, e3, ← List.append_assoc]; exact h.fifo
   · rw [e1]; exact h.nodup
   · rw [e1, e4]; exact h.bound
-  · rw [e1, e4, e5]; exact h.pend
-  · rw [e5]; exact h.pendDistinct
+  · intro t id ht; rw [e1, e4]; exact h.pend t id (hp t id ht)
+  · intro t t' id hne ht ht'
+    exact h.pendDistinct t t' id hne (hp t id ht) (hp t' id ht')
   · rw [e6, e7, e2]; exact h.res
   · rw [e6, e7]; exact h.resNodup
-  · rw [e1, e8, hx]; exact h.locked
-  · rw [e5, e8]; exact h.pendLocked
-  · rw [e9, e1]; exact h.lockmapQueued
-  · rw [e5, e1]; exact h.wants
-  · rw [e5, hx]; exact h.holds
+  · intro k hk; rw [e1] at hk; rw [hx]
+    rcases h.locked k hk with hl | hl
+    · exact e8a k hk hl
+    · exact Or.inr hl
+  · intro t c id ht
+    rcases e5 t with e | q
+    · have ht' : (s.th t).pc = IPc.qAcqQ c id := e ▸ ht
+      exact e8b id (h.pendLocked t c id ht') (h.pend t id (by rw [ht']; rfl)).2
+    · exact q.plocked c id ht
+  · intro k hk; rw [e1]; exact h.lockmapQueued k (e9 k hk)
+  · intro t k ht; rw [e1]
+    rcases e5 t with e | q
+    · exact h.wants t k (e ▸ ht)
+    · exact q.wants k ht
+  · intro t k ht; rw [hx]
+    rcases e5 t with e | q
+    · exact h.holds t k (e ▸ ht)
+    · exact q.holds k ht
   · rw [hx]; exact e10
+
+theorem setPc_ok (s0 s s' : State) (t : Tid) (pc : IPc) (hth : s0.th = s.th)
+    (hs' : s'.th = (setPc s0 t pc).th)
+    (hq : PcOk s s' (s.th t).pc pc) :
+    ∀ j, (s'.th j).pc = (s.th j).pc ∨ PcOk s s' (s.th j).pc (s'.th j).pc := by
+  intro j
+  rw [hs']
+  by_cases hj : j = t
+  · right; subst hj; simpa using hq
+  · left; rw [setPc_th_other _ _ _ _ hj, hth]
+
+/-- the same, with the set of held per-command locks unchanged or grown -/
+theorem Inv.congr' {s s' : State} (h : Inv s)
+    (e1 : s'.queuedLog = s.queuedLog) (e2 : s'.execLog = s.execLog)
+    (e3 : inflight s' ++ s'.queue = inflight s ++ s.queue)
+    (e4 : s'.nextId = s.nextId)
+    (e5 : ∀ j, (s'.th j).pc = (s.th j).pc ∨ PcOk s s' (s.th j).pc (s'.th j).pc)
+    (e6 : s'.results = s.results)
+    (e7 : s'.delivered = s.delivered)
+    (e8 : ∀ k ∈ s.cLocked, k ∈ s'.cLocked)
+    (e9 : ∀ k ∈ s'.lockmap, k ∈ s.lockmap)
+    (e10 : ∀ ctx id, s'.spc = SPc.runRelC ctx id → id ∈ execIds s) : Inv s' :=
+  h.congr e1 e2 e3 e4 e5 e6 e7 (fun k _ hk => Or.inl (e8 k hk)) (fun k hk _ => e8 k hk) e9 e10
 
 theorem inv_runQueue {s : State} (cfg : Cfg) (ctx : Ctx) (h : Inv s)
     (hin : inflight s = []) :
     Inv (runQueue cfg ctx s) := by
   rcases runQueue_eq cfg ctx s with ⟨id, rest, c, hq, e⟩ | ⟨pc, hpc, e⟩
-  · rw [e]; apply h.congr <;> simp [inflight, hin, hq]
-  · rw [e]; apply h.congr <;> try simp [inflight, hin]
+  · rw [e]; simp only [inflight] at hin
+    apply h.congr' <;> simp [inflight, hin, hq]
+  · rw [e]; simp only [inflight] at hin
+    apply h.congr' <;> try simp [inflight, hin]
     · rcases hpc with h | h | h | h | h <;> simp [h]
     · rcases hpc with h | h | h | h | h <;> simp [h]
+
+theorem mem_execIds {s : State} {k : Nat} : k ∈ execIds s ↔ ∃ n v, (k, n, v) ∈ s.execLog := by
+  simp [execIds]
+
+theorem wakeAllP_quiet (s s' : State) :
+    ∀ j, ((wakeAllP s).th j).pc = (s.th j).pc ∨
+      PcOk s s' (s.th j).pc ((wakeAllP s).th j).pc := by
+  intro j
+  simp only [wakeAllP]
+  by_cases hj : j ∈ s.pWait
+  · right; apply PcOk.of_quiet; simp [hj, Quiet, pendingId, holding, wantsResult]
+  · left; simp [hj]
+
+theorem inv_stepSolver {cfg : Cfg} {s s' : State} {evs : List Ev} (h : Inv s)
+    (hs : stepSolver cfg s = some (s', evs)) : Inv s' := by
+  unfold stepSolver at hs
+  split at hs
+  · -- start
+    rename_i hspc
+    simp only [Option.some.injEq, Prod.mk.injEq] at hs
+    obtain ⟨rfl, -⟩ := hs
+    apply h.congr' <;> simp [inflight, hspc]
+  · -- acqQ1
+    rename_i hspc
+    split at hs
+    · simp only [Option.some.injEq, Prod.mk.injEq] at hs
+      obtain ⟨rfl, -⟩ := hs
+      apply inv_runQueue
+      · apply h.congr' <;> simp [inflight, hspc]
+      · simp [inflight, hspc]
+    · cases hs
+  · -- runAcqRes: the command is executed
+    rename_i ctx id c hspc
+    split at hs
+    · simp only [Option.some.injEq, Prod.mk.injEq] at hs
+      obtain ⟨rfl, -⟩ := hs
+      have hf := h.fifo
+      simp only [inflight, hspc, inflightPc_run] at hf
+      have hnd := h.nodup
+      rw [hf] at hnd
+      have hid : id ∉ execIds s := by
+        intro hmem
+        have := List.nodup_append.mp (List.nodup_append.mp hnd).1
+        exact this.2.2 id hmem id (by simp) rfl
+      have hidq : id ∈ s.queuedLog := by rw [hf]; simp
+      constructor
+      · simp [execIds, inflight] at hf ⊢; simpa [execIds] using hf
+      · exact h.nodup
+      · exact h.bound
+      · exact h.pend
+      · exact h.pendDistinct
+      · intro k v hkv
+        simp only [List.mem_append, List.mem_singleton, Prod.mk.injEq] at hkv ⊢
+        rcases hkv with (hkv | ⟨rfl, rfl⟩) | hkv
+        · obtain ⟨n, hn⟩ := h.res k v (Or.inl hkv); exact ⟨n, Or.inl hn⟩
+        · exact ⟨s.count, Or.inr ⟨rfl, rfl, rfl⟩⟩
+        · obtain ⟨n, hn⟩ := h.res k v (Or.inr hkv); exact ⟨n, Or.inl hn⟩
+      · have hr := h.resNodup
+        have hnot : id ∉ s.results.map (·.1) ++ s.delivered.map (·.1) := by
+          intro hmem
+          apply hid
+          simp only [List.mem_append, List.mem_map] at hmem
+          rcases hmem with ⟨⟨k, v⟩, hkv, rfl⟩ | ⟨⟨k, v⟩, hkv, rfl⟩
+          · obtain ⟨n, hn⟩ := h.res k v (Or.inl hkv); exact mem_execIds.mpr ⟨n, v, hn⟩
+          · obtain ⟨n, hn⟩ := h.res k v (Or.inr hkv); exact mem_execIds.mpr ⟨n, v, hn⟩
+        simp only [List.map_append, List.map_cons, List.map_nil, List.append_assoc,
+          List.singleton_append]
+        have : (s.results.map (·.1) ++ id :: s.delivered.map (·.1)).Perm
+            (id :: (s.results.map (·.1) ++ s.delivered.map (·.1))) := List.perm_middle
+        exact this.nodup_iff.mpr (List.nodup_cons.mpr ⟨hnot, hr⟩)
+      · intro k hk
+        rcases h.locked k hk with hl | hl
+        · exact Or.inl hl
+        · right; simp [execIds] at hl ⊢; exact Or.inl hl
+      · exact h.pendLocked
+      · exact h.lockmapQueued
+      · exact h.wants
+      · intro t k ht
+        have := h.holds t k ht
+        simp [execIds] at this ⊢; exact Or.inl this
+      · intro ctx' id' he
+        simp only [SPc.runRelC.injEq] at he
+        obtain ⟨-, rfl⟩ := he
+        simp [execIds]
+    · cases hs
+  · -- runRelC: the per-command lock is released
+    rename_i ctx id hspc
+    split at hs
+    · rename_i hc
+      simp only [Option.some.injEq, Prod.mk.injEq] at hs
+      obtain ⟨rfl, -⟩ := hs
+      have hex : id ∈ execIds s := h.relc ctx id hspc
+      have hidq : id ∈ s.queuedLog := by rw [h.fifo]; simp [hex]
+      constructor
+      · have := h.fifo; simpa [execIds, inflight, hspc] using this
+      · exact h.nodup
+      · exact h.bound
+      · exact h.pend
+      · exact h.pendDistinct
+      · exact h.res
+      · exact h.resNodup
+      · intro k hk
+        by_cases hkid : k = id
+        · right; subst hkid; exact hex
+        · rcases h.locked k hk with hl | hl
+          · left; simp [hl, hkid]
+          · exact Or.inr hl
+      · intro t c id' ht
+        have h1 := h.pendLocked t c id' ht
+        have ht' : (s.th t).pc = IPc.qAcqQ c id' := ht
+        have h2 := (h.pend t id' (by rw [ht']; rfl)).2
+        have : id' ≠ id := by intro e; subst e; exact h2 hidq
+        simp [h1, this]
+      · exact h.lockmapQueued
+      · exact h.wants
+      · exact h.holds
+      · intro ctx' id' he; cases he
+    · simp only [Option.some.injEq, Prod.mk.injEq] at hs
+      obtain ⟨rfl, -⟩ := hs
+      apply h.congr' <;> simp [inflight, hspc]
+  · -- runRelRes
+    rename_i ctx hspc
+    simp only [Option.some.injEq, Prod.mk.injEq] at hs
+    obtain ⟨rfl, -⟩ := hs
+    apply inv_runQueue
+    · apply h.congr' <;> simp [inflight, hspc]
+    · simp [inflight, hspc]
+  · -- relQ1
+    rename_i hspc
+    simp only [Option.some.injEq, Prod.mk.injEq] at hs
+    obtain ⟨rfl, -⟩ := hs
+    apply h.congr' <;> simp [inflight, hspc]
+  · -- acqQ2
+    rename_i hspc
+    split at hs
+    · simp only [Option.some.injEq, Prod.mk.injEq] at hs
+      obtain ⟨rfl, -⟩ := hs
+      obtain ⟨pc, hpc, e⟩ := checkPause_eq { s with qOwner := some 0 }
+      rw [e]
+      apply h.congr' <;> try simp [inflight, hspc]
+      · rcases hpc with h | h <;> simp [h]
+      · rcases hpc with h | h <;> simp [h]
+    · cases hs
+  · -- acqP
+    rename_i hspc
+    split at hs
+    · simp only [Option.some.injEq, Prod.mk.injEq] at hs
+      obtain ⟨rfl, -⟩ := hs
+      apply h.congr' <;> simp [inflight, hspc]
+    · cases hs
+  · -- ntaP
+    rename_i hspc
+    simp only [Option.some.injEq, Prod.mk.injEq] at hs
+    obtain ⟨rfl, -⟩ := hs
+    apply h.congr' <;> try simp [inflight, hspc, wakeAllP]
+    exact wakeAllP_quiet s _
+  · -- relP
+    rename_i hspc
+    simp only [Option.some.injEq, Prod.mk.injEq] at hs
+    obtain ⟨rfl, -⟩ := hs
+    split
+    · apply inv_runQueue
+      · apply h.congr' <;> simp [inflight, hspc]
+      · simp [inflight, hspc]
+    · apply h.congr' <;> simp [inflight, hspc]
+  · -- waitQ
+    rename_i hspc
+    simp only [Option.some.injEq, Prod.mk.injEq] at hs
+    obtain ⟨rfl, -⟩ := hs
+    apply h.congr' <;> simp [inflight, hspc]
+  · cases hs
+  · -- reacqQ
+    rename_i hspc
+    split at hs
+    · simp only [Option.some.injEq, Prod.mk.injEq] at hs
+      obtain ⟨rfl, -⟩ := hs
+      split
+      · obtain ⟨pc, hpc, e⟩ := checkPause_eq { s with qOwner := some 0 }
+        rw [e]
+        apply h.congr' <;> try simp [inflight, hspc]
+        · rcases hpc with h | h <;> simp [h]
+        · rcases hpc with h | h <;> simp [h]
+      · apply inv_runQueue
+        · apply h.congr' <;> simp [inflight, hspc]
+        · simp [inflight, hspc]
+    · cases hs
+  · -- relQ2
+    rename_i hspc
+    simp only [Option.some.injEq, Prod.mk.injEq] at hs
+    obtain ⟨rfl, -⟩ := hs
+    apply h.congr' <;> simp [inflight, hspc]
+  · cases hs
+
+/-! ### interface threads -/
+
+theorem inv_setPc {s : State} (h : Inv s) (t : Tid) (pc : IPc)
+    (hq : PcOk s (setPc s t pc) (s.th t).pc pc) : Inv (setPc s t pc) := by
+  apply h.congr' <;> try simp [setPc, inflight]
+  · exact setPc_ok s s _ t pc rfl rfl hq
+  · exact h.relc
+
+theorem inv_setPc_quiet {s : State} (h : Inv s) (t : Tid) (pc : IPc) (hq : Quiet pc) :
+    Inv (setPc s t pc) := inv_setPc h t pc (PcOk.of_quiet hq)
+
+theorem inv_wakeOneP {s : State} (h : Inv s) : Inv (wakeOneP s).1 := by
+  unfold wakeOneP
+  split
+  · exact h
+  · rename_i w ws hw
+    apply inv_setPc_quiet (s := { s with pWait := ws })
+    · apply h.congr' <;> try simp [inflight]
+      exact h.relc
+    · simp [Quiet, pendingId, holding, wantsResult]
+
+/-- only the blocked solver sits in qlock's wait set -/
+def QW (s : State) : Prop := s.qWaiting = true → s.spc = SPc.blocked
+
+theorem inv_wakeQ {s : State} (h : Inv s) (hq : QW s) : Inv (wakeQ s).1 := by
+  unfold wakeQ
+  split
+  · rename_i hw
+    have hb := hq hw
+    apply h.congr' <;> simp [inflight, hb]
+  · exact h
+
+macro "quiet" : tactic =>
+  `(tactic| (apply inv_setPc_quiet _ _ _ (by simp [Quiet, pendingId, holding, wantsResult])))
+
+macro "plain" h:ident : tactic =>
+  `(tactic| (apply Inv.congr' $h <;> first | exact fun ctx id e => Inv.relc $h ctx id e | simp [inflight]))
+
+theorem inv_startOp {s : State} (h : Inv s) (t : Tid) (op : Op) (rest : List Op) :
+    Inv (startOp s t op rest).1 := by
+  have h0 : Inv { s with th := fun j => if j = t then { s.th j with prog := rest } else s.th j } := by
+    apply h.congr' <;> try simp [inflight]
+    · intro j; left; split <;> rfl
+    · exact h.relc
+  have hlm : ∀ k, k ∈ s.lockmap → Inv (setPc { s with th := fun j =>
+      if j = t then { s.th j with prog := rest } else s.th j } t (IPc.rAcqC k)) := by
+    intro k hk
+    apply inv_setPc h0
+    constructor
+    · intro id hh; cases hh
+    · intro c id hh; cases hh
+    · intro k' hh
+      simp only [wantsResult, Option.some.injEq] at hh
+      subst hh; exact h.lockmapQueued _ hk
+    · intro k' hh; cases hh
+  unfold startOp
+  cases op with
+  | get => exact inv_setPc_quiet h0 _ _ (by simp [Quiet, pendingId, holding, wantsResult])
+  | setNow v => exact inv_setPc_quiet h0 _ _ (by simp [Quiet, pendingId, holding, wantsResult])
+  | queue c => exact inv_setPc_quiet h0 _ _ (by simp [Quiet, pendingId, holding, wantsResult])
+  | getResult k =>
+    simp only
+    split
+    · rename_i hk; exact hlm k hk
+    · exact inv_setPc_quiet h0 _ _ (by simp [Quiet, pendingId, holding, wantsResult])
+  | getMine j =>
+    simp only
+    split
+    · split
+      · rename_i hk; exact hlm _ hk
+      · exact inv_setPc_quiet h0 _ _ (by simp [Quiet, pendingId, holding, wantsResult])
+    · exact inv_setPc_quiet h0 _ _ (by simp [Quiet, pendingId, holding, wantsResult])
+  | pause => exact inv_setPc_quiet h0 _ _ (by simp [Quiet, pendingId, holding, wantsResult])
+  | wait => exact inv_setPc_quiet h0 _ _ (by simp [Quiet, pendingId, holding, wantsResult])
+  | cont => exact inv_setPc_quiet h0 _ _ (by simp [Quiet, pendingId, holding, wantsResult])
+
+theorem lookupVal_mem {l : List (Nat × Val)} {k : Nat} {v : Val} (h : lookupVal l k = some v) :
+    (k, v) ∈ l := by
+  unfold lookupVal at h
+  cases hf : l.find? (fun e => e.1 = k) with
+  | none => simp [hf] at h
+  | some e =>
+    simp only [hf, Option.map_some, Option.some.injEq] at h
+    have h1 := List.mem_of_find?_eq_some hf
+    have h2 := List.find?_some hf
+    simp only [decide_eq_true_eq] at h2
+    obtain ⟨a, b⟩ := e
+    simp only at h h2
+    subst h; subst h2; exact h1
+
+theorem execIds_sub_queued {s : State} (h : Inv s) {k : Nat} (hk : k ∈ execIds s) :
+    k ∈ s.queuedLog := by
+  rw [h.fifo]; simp [hk]
+
+theorem inv_stepIface {cfg : Cfg} {s s' : State} {t : Tid} {evs : List Ev} (h : Inv s) (hqw : QW s)
+    (hs : stepIface cfg s t = some (s', evs)) : Inv s' := by
+  unfold stepIface at hs
+  split at hs
+  · -- idle
+    split at hs
+    · cases hs
+    · simp only [Option.some.injEq] at hs
+      rename_i op rest _
+      have := inv_startOp h t op rest
+      rw [hs] at this; exact this
+  · -- gAcqD
+    split at hs
+    · simp only [Option.some.injEq, Prod.mk.injEq] at hs; obtain ⟨rfl, -⟩ := hs; quiet; plain h
+    · cases hs
+  · simp only [Option.some.injEq, Prod.mk.injEq] at hs; obtain ⟨rfl, -⟩ := hs; quiet; plain h
+  · split at hs
+    · simp only [Option.some.injEq, Prod.mk.injEq] at hs; obtain ⟨rfl, -⟩ := hs; quiet; plain h
+    · cases hs
+  · simp only [Option.some.injEq, Prod.mk.injEq] at hs; obtain ⟨rfl, -⟩ := hs; quiet; plain h
+  · -- qAcqD: a fresh task id
+    rename_i c hpc
+    split at hs
+    · simp only [Option.some.injEq, Prod.mk.injEq] at hs; obtain ⟨rfl, -⟩ := hs
+      have hold : ∀ j, j ≠ t → ((setPc { s with dlock := some t, nextId := s.nextId + 1 } t
+          (IPc.qAcqC c s.nextId)).th j) = s.th j := fun j hj => setPc_th_other _ _ _ _ hj
+      have hnew : ((setPc { s with dlock := some t, nextId := s.nextId + 1 } t
+          (IPc.qAcqC c s.nextId)).th t).pc = IPc.qAcqC c s.nextId := setPc_th_same _ _ _
+      have hfresh : s.nextId ∉ s.queuedLog := fun hm => Nat.lt_irrefl _ (h.bound _ hm)
+      constructor
+      · exact h.fifo
+      · exact h.nodup
+      · intro id hid; exact Nat.lt_succ_of_lt (h.bound id hid)
+      · intro j id hj
+        by_cases hjt : j = t
+        · subst hjt; rw [hnew] at hj
+          simp only [pendingId, Option.some.injEq] at hj
+          subst hj; exact ⟨Nat.lt_succ_self _, hfresh⟩
+        · rw [hold j hjt] at hj
+          exact ⟨Nat.lt_succ_of_lt (h.pend j id hj).1, (h.pend j id hj).2⟩
+      · intro j j' id hne hj hj'
+        by_cases hjt : j = t
+        · subst hjt; rw [hnew] at hj
+          simp only [pendingId, Option.some.injEq] at hj
+          subst hj
+          rw [hold j' (Ne.symm hne)] at hj'
+          exact Nat.lt_irrefl _ (h.pend j' _ hj').1
+        · rw [hold j hjt] at hj
+          by_cases hjt' : j' = t
+          · subst hjt'; rw [hnew] at hj'
+            simp only [pendingId, Option.some.injEq] at hj'
+            subst hj'
+            exact Nat.lt_irrefl _ (h.pend j _ hj).1
+          · rw [hold j' hjt'] at hj'
+            exact h.pendDistinct j j' id hne hj hj'
+      · exact h.res
+      · exact h.resNodup
+      · exact h.locked
+      · intro j c' id hj
+        by_cases hjt : j = t
+        · subst hjt; rw [hnew] at hj; cases hj
+        · rw [hold j hjt] at hj; exact h.pendLocked j c' id hj
+      · exact h.lockmapQueued
+      · intro j k hj
+        by_cases hjt : j = t
+        · subst hjt; rw [hnew] at hj; cases hj
+        · rw [hold j hjt] at hj; exact h.wants j k hj
+      · intro j k hj
+        by_cases hjt : j = t
+        · subst hjt; rw [hnew] at hj; cases hj
+        · rw [hold j hjt] at hj; exact h.holds j k hj
+      · exact h.relc
+    · cases hs
+  · -- qAcqC: the new per-command lock is taken
+    rename_i c id hpc
+    simp only [Option.some.injEq, Prod.mk.injEq] at hs; obtain ⟨rfl, -⟩ := hs
+    apply inv_setPc
+    · apply h.congr' <;> first | exact h.relc | simp [inflight]
+      intro k hk; exact Or.inl hk
+    · constructor
+      · intro id' hh; simp only [hpc]; exact hh
+      · intro c' id' hh
+        simp only [IPc.qAcqQ.injEq] at hh
+        obtain ⟨-, rfl⟩ := hh
+        simp [setPc]
+      · intro k hh; cases hh
+      · intro k hh; cases hh
+  · -- qAcqQ: the command is appended to the queue
+    rename_i c id hpc
+    split at hs
+    · simp only [Option.some.injEq, Prod.mk.injEq] at hs; obtain ⟨rfl, -⟩ := hs
+      have hp := h.pend t id (by rw [hpc]; rfl)
+      generalize hpc' : (if cfg.dispatchNotifies = true then IPc.qNtaQ id else IPc.qRelQ id) = pc'
+      have hq : Quiet pc' := by
+        subst hpc'; split <;> simp [Quiet, pendingId, holding, wantsResult]
+      have hnew : ∀ s1 : State, ((setPc s1 t pc').th t).pc = pc' := fun s1 => setPc_th_same _ _ _
+      constructor
+      · have := h.fifo
+        simp only [setPc, execIds, inflight] at this ⊢
+        rw [this]; simp [List.append_assoc]
+      · simp only [setPc]
+        exact List.nodup_append.mpr ⟨h.nodup, by simp, by
+          intro a ha b hb; simp at hb; subst hb; intro e; subst e; exact hp.2 ha⟩
+      · intro k hk
+        simp only [setPc, List.mem_append, List.mem_singleton] at hk ⊢
+        rcases hk with hk | rfl
+        · exact h.bound k hk
+        · exact hp.1
+      · intro j id' hj
+        by_cases hjt : j = t
+        · subst hjt; rw [hnew] at hj; rw [hq.1] at hj; cases hj
+        · simp only [setPc_th_other _ _ _ _ hjt] at hj
+          refine ⟨(h.pend j id' hj).1, ?_⟩
+          simp only [setPc, List.mem_append, List.mem_singleton, not_or]
+          refine ⟨(h.pend j id' hj).2, ?_⟩
+          intro e; subst e
+          exact h.pendDistinct j t id' hjt hj (by rw [hpc]; rfl)
+      · intro j j' id' hne hj hj'
+        by_cases hjt : j = t
+        · subst hjt; rw [hnew] at hj; rw [hq.1] at hj; cases hj
+        · by_cases hjt' : j' = t
+          · subst hjt'; rw [hnew] at hj'; rw [hq.1] at hj'; cases hj'
+          · simp only [setPc_th_other _ _ _ _ hjt] at hj; simp only [setPc_th_other _ _ _ _ hjt'] at hj'
+            exact h.pendDistinct j j' id' hne hj hj'
+      · exact h.res
+      · exact h.resNodup
+      · intro k hk
+        simp only [setPc, List.mem_append, List.mem_singleton] at hk ⊢
+        rcases hk with hk | rfl
+        · exact h.locked k hk
+        · exact Or.inl (h.pendLocked t c k hpc)
+      · intro j c' id' hj
+        by_cases hjt : j = t
+        · subst hjt; rw [hnew] at hj; rw [hj] at hq; cases hq.1
+        · simp only [setPc_th_other _ _ _ _ hjt] at hj; exact h.pendLocked j c' id' hj
+      · intro k hk
+        simp only [setPc, List.mem_append, List.mem_singleton] at hk ⊢
+        rcases hk with hk | rfl
+        · exact Or.inl (h.lockmapQueued k hk)
+        · exact Or.inr rfl
+      · intro j k hj
+        by_cases hjt : j = t
+        · subst hjt; rw [hnew] at hj; rw [hq.2.2] at hj; cases hj
+        · simp only [setPc_th_other _ _ _ _ hjt] at hj
+          simp only [setPc, List.mem_append]; exact Or.inl (h.wants j k hj)
+      · intro j k hj
+        by_cases hjt : j = t
+        · subst hjt; rw [hnew] at hj; rw [hq.2.1] at hj; cases hj
+        · simp only [setPc_th_other _ _ _ _ hjt] at hj; exact h.holds j k hj
+      · exact h.relc
+    · cases hs
+  · -- qNtaQ
+    simp only [Option.some.injEq, Prod.mk.injEq] at hs; obtain ⟨rfl, -⟩ := hs
+    quiet; exact inv_wakeQ h hqw
+  · simp only [Option.some.injEq, Prod.mk.injEq] at hs; obtain ⟨rfl, -⟩ := hs; quiet; plain h
+  · -- qRelD
+    simp only [Option.some.injEq, Prod.mk.injEq] at hs; obtain ⟨rfl, -⟩ := hs
+    apply h.congr' <;> first | exact h.relc | simp [inflight]
+    intro j
+    by_cases hj : j = t
+    · right; apply PcOk.of_quiet; simp [hj, Quiet, pendingId, holding, wantsResult]
+    · left; simp [hj]
+  · -- rAcqC: the per-command lock is free, so the command has run
+    rename_i k hpc
+    split at hs
+    · cases hs
+    · rename_i hnl
+      simp only [Option.some.injEq, Prod.mk.injEq] at hs; obtain ⟨rfl, -⟩ := hs
+      apply inv_setPc
+      · apply h.congr' <;> first | exact h.relc | simp [inflight]
+        intro k' hk'; exact Or.inl hk'
+      · constructor
+        · intro id hh; cases hh
+        · intro c id hh; cases hh
+        · intro k' hh; cases hh
+        · intro k' hh
+          simp only [holding, Option.some.injEq] at hh
+          subst hh
+          have hq := h.wants t k (by rw [hpc]; rfl)
+          rcases h.locked k hq with hl | hl
+          · exact absurd hl hnl
+          · exact hl
+  · -- rAcqRes: the result is handed over
+    rename_i k hpc
+    have hex : k ∈ execIds s := h.holds t k (by rw [hpc]; rfl)
+    split at hs
+    · split at hs
+      · rename_i v hv
+        simp only [Option.some.injEq, Prod.mk.injEq] at hs; obtain ⟨rfl, -⟩ := hs
+        have hmem := lookupVal_mem hv
+        apply inv_setPc
+        · constructor
+          · exact h.fifo
+          · exact h.nodup
+          · exact h.bound
+          · exact h.pend
+          · exact h.pendDistinct
+          · intro k' v' hkv
+            simp only [List.mem_filter, List.mem_append, List.mem_singleton, Prod.mk.injEq] at hkv
+            rcases hkv with ⟨hkv, -⟩ | hkv | ⟨rfl, rfl⟩
+            · exact h.res k' v' (Or.inl hkv)
+            · exact h.res k' v' (Or.inr hkv)
+            · exact h.res _ _ (Or.inl hmem)
+          · have hr := h.resNodup
+            have hkr : k ∈ s.results.map (·.1) := List.mem_map.mpr ⟨(k, v), hmem, rfl⟩
+            have hnd := List.nodup_append.mp hr
+            have hkd : k ∉ s.delivered.map (·.1) := fun hd => hnd.2.2 k hkr k hd rfl
+            simp only [List.map_append, List.map_cons, List.map_nil]
+            rw [← List.append_assoc]
+            apply List.nodup_append.mpr
+            refine ⟨?_, by simp, ?_⟩
+            · apply List.nodup_append.mpr
+              refine ⟨(hnd.1.sublist ((List.filter_sublist).map _)), hnd.2.1, ?_⟩
+              intro a ha b hb
+              exact hnd.2.2 a (((List.filter_sublist).map _).subset ha) b hb
+            · intro a ha b hb
+              simp only [List.mem_singleton] at hb; subst hb
+              simp only [List.mem_append, List.mem_map, List.mem_filter] at ha
+              rcases ha with ⟨⟨a1, a2⟩, ⟨-, hne⟩, rfl⟩ | ha
+              · simpa using hne
+              · intro e; subst e; exact hkd (List.mem_map.mpr ha)
+          · exact h.locked
+          · exact h.pendLocked
+          · intro k' hk'
+            simp only [List.mem_filter] at hk'
+            exact h.lockmapQueued k' hk'.1
+          · exact h.wants
+          · exact h.holds
+          · exact h.relc
+        · constructor
+          · intro id hh; cases hh
+          · intro c id hh; cases hh
+          · intro k' hh; cases hh
+          · intro k' hh
+            simp only [holding, Option.some.injEq] at hh
+            subst hh; exact hex
+      · simp only [Option.some.injEq, Prod.mk.injEq] at hs; obtain ⟨rfl, -⟩ := hs
+        apply inv_setPc
+        · plain h
+        · constructor
+          · intro id hh; cases hh
+          · intro c id hh; cases hh
+          · intro k' hh; cases hh
+          · intro k' hh
+            simp only [holding, Option.some.injEq] at hh
+            subst hh; exact hex
+    · cases hs
+  · -- rRelRes
+    rename_i k r hpc
+    have hex : k ∈ execIds s := h.holds t k (by rw [hpc]; rfl)
+    simp only [Option.some.injEq, Prod.mk.injEq] at hs; obtain ⟨rfl, -⟩ := hs
+    apply inv_setPc
+    · plain h
+    · constructor
+      · intro id hh; cases hh
+      · intro c id hh; cases hh
+      · intro k' hh; cases hh
+      · intro k' hh
+        simp only [holding, Option.some.injEq] at hh
+        subst hh; exact hex
+  · -- rRelC: the per-command lock is dropped
+    rename_i k r hpc
+    have hex : k ∈ execIds s := h.holds t k (by rw [hpc]; rfl)
+    simp only [Option.some.injEq, Prod.mk.injEq] at hs; obtain ⟨rfl, -⟩ := hs
+    quiet
+    apply h.congr <;> first | exact h.relc | simp [inflight]
+    · intro k' _ hl
+      by_cases hk : k' = k
+      · subst hk; exact Or.inr hex
+      · exact Or.inl ⟨hl, hk⟩
+    · intro k' hl hnq
+      refine ⟨hl, ?_⟩
+      intro e; subst e; exact hnq (execIds_sub_queued h hex)
+  · -- pAcqP
+    split at hs
+    · simp only [Option.some.injEq, Prod.mk.injEq] at hs; obtain ⟨rfl, -⟩ := hs; quiet; plain h
+    · cases hs
+  · simp only [Option.some.injEq, Prod.mk.injEq] at hs; obtain ⟨rfl, -⟩ := hs
+    quiet; exact inv_wakeOneP h
+  · simp only [Option.some.injEq, Prod.mk.injEq] at hs; obtain ⟨rfl, -⟩ := hs; quiet; plain h
+  · -- wAcqP
+    split at hs
+    · simp only [Option.some.injEq, Prod.mk.injEq] at hs; obtain ⟨rfl, -⟩ := hs
+      apply inv_setPc_quiet
+      · plain h
+      · (repeat' split) <;> simp [Quiet, pendingId, holding, wantsResult]
+    · cases hs
+  · simp only [Option.some.injEq, Prod.mk.injEq] at hs; obtain ⟨rfl, -⟩ := hs; quiet; plain h
+  · cases hs
+  · -- wReacqP
+    split at hs
+    · simp only [Option.some.injEq, Prod.mk.injEq] at hs; obtain ⟨rfl, -⟩ := hs
+      apply inv_setPc_quiet
+      · plain h
+      · (repeat' split) <;> simp [Quiet, pendingId, holding, wantsResult]
+    · cases hs
+  · simp only [Option.some.injEq, Prod.mk.injEq] at hs; obtain ⟨rfl, -⟩ := hs; quiet; plain h
+  · -- cAcqP
+    split at hs
+    · split at hs
+      · simp only [Option.some.injEq, Prod.mk.injEq] at hs; obtain ⟨rfl, -⟩ := hs; quiet; plain h
+      · simp only [Option.some.injEq, Prod.mk.injEq] at hs; obtain ⟨rfl, -⟩ := hs; quiet; plain h
+    · cases hs
+  · -- cNtfP
+    simp only [Option.some.injEq, Prod.mk.injEq] at hs; obtain ⟨rfl, -⟩ := hs
+    apply inv_setPc_quiet
+    · exact inv_wakeOneP h
+    · split <;> simp [Quiet, pendingId, holding, wantsResult]
+  · -- cRelP
+    split at hs
+    · simp only [Option.some.injEq, Prod.mk.injEq] at hs; obtain ⟨rfl, -⟩ := hs; quiet; plain h
+    · split at hs
+      · simp only [Option.some.injEq, Prod.mk.injEq] at hs; obtain ⟨rfl, -⟩ := hs; quiet; plain h
+      · simp only [Option.some.injEq, Prod.mk.injEq] at hs; obtain ⟨rfl, -⟩ := hs; quiet; plain h
+  · -- cAcqQ
+    split at hs
+    · simp only [Option.some.injEq, Prod.mk.injEq] at hs; obtain ⟨rfl, -⟩ := hs; quiet; plain h
+    · cases hs
+  · simp only [Option.some.injEq, Prod.mk.injEq] at hs; obtain ⟨rfl, -⟩ := hs
+    quiet; exact inv_wakeQ h hqw
+  · -- cRelQ
+    split at hs
+    · simp only [Option.some.injEq, Prod.mk.injEq] at hs; obtain ⟨rfl, -⟩ := hs; quiet; plain h
+    · simp only [Option.some.injEq, Prod.mk.injEq] at hs; obtain ⟨rfl, -⟩ := hs; quiet; plain h
+
+/-! ### `QW` and reachability -/
+
+@[simp] theorem checkPause_qWaiting (s : State) : (checkPause s).qWaiting = s.qWaiting := by
+  unfold checkPause; split <;> rfl
+
+@[simp] theorem runQueue_qWaiting (cfg : Cfg) (ctx : Ctx) (s : State) :
+    (runQueue cfg ctx s).qWaiting = s.qWaiting := by
+  rcases runQueue_eq cfg ctx s with ⟨id, rest, c, _, e⟩ | ⟨pc, _, e⟩ <;> rw [e]
+
+theorem wakeOneP_spc (s : State) :
+    (wakeOneP s).1.qWaiting = s.qWaiting ∧ (wakeOneP s).1.spc = s.spc := by
+  unfold wakeOneP; split <;> simp [setPc]
+
+theorem wakeQ_qw (s : State) :
+    (wakeQ s).1.qWaiting = false ∨
+      ((wakeQ s).1.qWaiting = s.qWaiting ∧ (wakeQ s).1.spc = s.spc) := by
+  unfold wakeQ; split <;> simp
+
+theorem startOp_spc (s : State) (t : Tid) (op : Op) (rest : List Op) :
+    (startOp s t op rest).1.qWaiting = s.qWaiting ∧ (startOp s t op rest).1.spc = s.spc := by
+  unfold startOp
+  cases op <;> simp only [setPc] <;> (repeat' split) <;> simp
+
+theorem stepIface_qw {cfg : Cfg} {s s' : State} {t : Tid} {evs : List Ev}
+    (hs : stepIface cfg s t = some (s', evs)) :
+    s'.qWaiting = false ∨ (s'.qWaiting = s.qWaiting ∧ s'.spc = s.spc) := by
+  unfold stepIface at hs
+  split at hs
+  · split at hs
+    · cases hs
+    · rename_i op rest _
+      simp only [Option.some.injEq] at hs
+      have := startOp_spc s t op rest
+      rw [hs] at this; exact Or.inr this
+  all_goals
+    (repeat' split at hs) <;>
+    first
+    | (simp only [Option.some.injEq, Prod.mk.injEq] at hs
+       obtain ⟨rfl, -⟩ := hs
+       first
+       | (right; simp [setPc]; done)
+       | (have e := ‹wakeQ s = _›; have := wakeQ_qw s; rw [e] at this; simpa [setPc] using this)
+       | (have e := ‹wakeOneP s = _›; have := wakeOneP_spc s; rw [e] at this
+          right; simpa [setPc] using this))
+    | (cases hs; done)
+
+theorem qw_step {cfg : Cfg} {s s' : State} {t : Tid} {evs : List Ev} (h : QW s)
+    (hs : step cfg s t = some (s', evs)) : QW s' := by
+  unfold step at hs
+  split at hs
+  · unfold stepSolver at hs
+    split at hs
+    all_goals
+      rename_i hspc
+      have hw : s.qWaiting = false := by
+        cases hq : s.qWaiting
+        · rfl
+        · first
+          | (cases hs; done)
+          | (have := h hq; rw [hspc] at this; cases this)
+    all_goals
+      (repeat' split at hs) <;>
+      first
+      | (simp only [Option.some.injEq, Prod.mk.injEq] at hs
+         obtain ⟨rfl, -⟩ := hs
+         intro hq
+         first
+         | rfl
+         | (exfalso; revert hq; (repeat' split) <;> simp [hw, wakeAllP]; done))
+      | (cases hs; done)
+  · rcases stepIface_qw hs with hf | ⟨h1, h2⟩
+    · intro hq; rw [hf] at hq; cases hq
+    · intro hq; rw [h2]; exact h (h1 ▸ hq)
+
+theorem inv_step {cfg : Cfg} {s s' : State} {t : Tid} {evs : List Ev} (h : Inv s) (hq : QW s)
+    (hs : step cfg s t = some (s', evs)) : Inv s' := by
+  unfold step at hs
+  split at hs
+  · exact inv_stepSolver h hs
+  · exact inv_stepIface h hq hs
+
+theorem reachable_inv {cfg : Cfg} {progs : Tid → List Op} {s : State}
+    (hr : Reachable cfg progs s) : Inv s ∧ QW s := by
+  induction hr with
+  | init => exact ⟨inv_init progs, by simp [QW, init]⟩
+  | step _ hs ih => exact ⟨inv_step ih.1 ih.2 hs, qw_step ih.2 hs⟩
+
+/-! ### the pause protocol: honoured requests keep the solver in `wait_for_cmd` -/
+
+/-- the solver is inside the `while self.pause` loop of `wait_for_cmd` (or dead) -/
+def InLoop : SPc → Prop
+  | SPc.acqP | SPc.ntaP | SPc.relP | SPc.waitQ | SPc.blocked | SPc.reacqQ | SPc.crashed => True
+  | SPc.runAcqRes Ctx.loop _ _ | SPc.runRelC Ctx.loop _ | SPc.runRelRes Ctx.loop => True
+  | _ => False
+
+structure PInv (s : State) : Prop where
+  sub : ∀ t ∈ s.paused, t ∈ s.pause
+  loop : s.paused ≠ [] → InLoop s.spc
+
+theorem mem_addSet {l : List Tid} {t x : Tid} : x ∈ addSet l t ↔ x ∈ l ∨ x = t := by
+  unfold addSet; split
+  · constructor
+    · exact Or.inl
+    · rintro (h | rfl) <;> assumption
+  · simp
+
+theorem mem_unionSet {a b : List Tid} {x : Tid} : x ∈ unionSet a b ↔ x ∈ a ∨ x ∈ b := by
+  unfold unionSet
+  induction b generalizing a with
+  | nil => simp
+  | cons y ys ih =>
+    simp only [List.foldl_cons, ih, mem_addSet, List.mem_cons]
+    constructor
+    · rintro ((h | h) | h)
+      · exact Or.inl h
+      · exact Or.inr (Or.inl h)
+      · exact Or.inr (Or.inr h)
+    · rintro (h | h | h)
+      · exact Or.inl (Or.inl h)
+      · exact Or.inl (Or.inr h)
+      · exact Or.inr h
+
+theorem pinv_checkPause {s : State} (h : ∀ t ∈ s.paused, t ∈ s.pause) : PInv (checkPause s) := by
+  unfold checkPause
+  split
+  · rename_i hp
+    refine ⟨h, ?_⟩
+    intro hne; exfalso; apply hne
+    cases hq : s.paused with
+    | nil => rfl
+    | cons a as => have := h a (by simp [hq]); simp [hp] at this
+  · exact ⟨h, fun _ => trivial⟩
+
+theorem pinv_runQueue_loop {cfg : Cfg} {s : State} (h : ∀ t ∈ s.paused, t ∈ s.pause) :
+    PInv (runQueue cfg Ctx.loop s) := by
+  unfold runQueue
+  split
+  · unfold afterRun
+    simp only
+    split
+    · exact ⟨h, fun _ => trivial⟩
+    · exact pinv_checkPause h
+  · split
+    · exact ⟨h, fun _ => trivial⟩
+    · exact ⟨h, fun _ => trivial⟩
+
+theorem pinv_runQueue_first {cfg : Cfg} {s : State} (h : ∀ t ∈ s.paused, t ∈ s.pause)
+    (he : s.paused = []) : PInv (runQueue cfg Ctx.first s) := by
+  rcases runQueue_eq cfg Ctx.first s with ⟨id, rest, c, _, e⟩ | ⟨pc, _, e⟩ <;> rw [e] <;>
+    exact ⟨h, fun hne => absurd he hne⟩
+
+theorem pinv_stepSolver {cfg : Cfg} {s s' : State} {evs : List Ev} (h : PInv s)
+    (hs : stepSolver cfg s = some (s', evs)) : PInv s' := by
+  unfold stepSolver at hs
+  split at hs
+  all_goals
+    rename_i hspc
+    have hl := h.loop
+    rw [hspc] at hl
+  -- start
+  · have he : s.paused = [] := by
+      cases hq : s.paused with
+      | nil => rfl
+      | cons a as => exact (hl (by simp [hq])).elim
+    simp only [Option.some.injEq, Prod.mk.injEq] at hs; obtain ⟨rfl, -⟩ := hs
+    exact ⟨h.sub, fun hne => absurd he hne⟩
+  -- acqQ1
+  · have he : s.paused = [] := by
+      cases hq : s.paused with
+      | nil => rfl
+      | cons a as => exact (hl (by simp [hq])).elim
+    split at hs
+    · simp only [Option.some.injEq, Prod.mk.injEq] at hs; obtain ⟨rfl, -⟩ := hs
+      exact pinv_runQueue_first h.sub he
+    · cases hs
+  -- runAcqRes
+  · rename_i ctx id c
+    split at hs
+    · simp only [Option.some.injEq, Prod.mk.injEq] at hs; obtain ⟨rfl, -⟩ := hs
+      refine ⟨h.sub, fun hne => ?_⟩
+      have := hl hne
+      cases ctx <;> simp_all [InLoop]
+    · cases hs
+  -- runRelC
+  · rename_i ctx id
+    split at hs
+    · simp only [Option.some.injEq, Prod.mk.injEq] at hs; obtain ⟨rfl, -⟩ := hs
+      refine ⟨h.sub, fun hne => ?_⟩
+      have := hl hne
+      cases ctx <;> simp_all [InLoop]
+    · simp only [Option.some.injEq, Prod.mk.injEq] at hs; obtain ⟨rfl, -⟩ := hs
+      exact ⟨h.sub, fun _ => trivial⟩
+  -- runRelRes
+  · rename_i ctx
+    simp only [Option.some.injEq, Prod.mk.injEq] at hs; obtain ⟨rfl, -⟩ := hs
+    cases ctx with
+    | first =>
+      have he : s.paused = [] := by
+        cases hq : s.paused with
+        | nil => rfl
+        | cons a as => exact (hl (by simp [hq])).elim
+      exact pinv_runQueue_first (s := { s with resLock := none }) h.sub he
+    | loop => exact pinv_runQueue_loop (s := { s with resLock := none }) h.sub
+  -- relQ1
+  · have he : s.paused = [] := by
+      cases hq : s.paused with
+      | nil => rfl
+      | cons a as => exact (hl (by simp [hq])).elim
+    simp only [Option.some.injEq, Prod.mk.injEq] at hs; obtain ⟨rfl, -⟩ := hs
+    exact ⟨h.sub, fun hne => absurd he hne⟩
+  -- acqQ2
+  · split at hs
+    · simp only [Option.some.injEq, Prod.mk.injEq] at hs; obtain ⟨rfl, -⟩ := hs
+      exact pinv_checkPause (s := { s with qOwner := some 0 }) h.sub
+    · cases hs
+  -- acqP
+  · split at hs
+    · simp only [Option.some.injEq, Prod.mk.injEq] at hs; obtain ⟨rfl, -⟩ := hs
+      refine ⟨?_, fun _ => trivial⟩
+      intro t ht
+      simp only at ht ⊢
+      split at ht
+      · rcases mem_unionSet.mp ht with h1 | h1
+        · exact h.sub t h1
+        · exact h1
+      · exact h.sub t ht
+    · cases hs
+  -- ntaP
+  · simp only [Option.some.injEq, Prod.mk.injEq] at hs; obtain ⟨rfl, -⟩ := hs
+    exact ⟨h.sub, fun _ => trivial⟩
+  -- relP
+  · simp only [Option.some.injEq, Prod.mk.injEq] at hs; obtain ⟨rfl, -⟩ := hs
+    split
+    · exact pinv_runQueue_loop (s := { s with pOwner := none }) h.sub
+    · exact ⟨h.sub, fun _ => trivial⟩
+  -- waitQ
+  · simp only [Option.some.injEq, Prod.mk.injEq] at hs; obtain ⟨rfl, -⟩ := hs
+    exact ⟨h.sub, fun _ => trivial⟩
+  · cases hs
+  -- reacqQ
+  · split at hs
+    · simp only [Option.some.injEq, Prod.mk.injEq] at hs; obtain ⟨rfl, -⟩ := hs
+      split
+      · exact pinv_checkPause (s := { s with qOwner := some 0 }) h.sub
+      · exact pinv_runQueue_loop (s := { s with qOwner := some 0 }) h.sub
+    · cases hs
+  -- relQ2
+  · have he : s.paused = [] := by
+      cases hq : s.paused with
+      | nil => rfl
+      | cons a as => exact (hl (by simp [hq])).elim
+    simp only [Option.some.injEq, Prod.mk.injEq] at hs; obtain ⟨rfl, -⟩ := hs
+    exact ⟨h.sub, fun hne => absurd he hne⟩
+  · cases hs
+
+/-- what an interface step does to the pause sets and the solver's pc -/
+theorem stepIface_pause {cfg : Cfg} {s s' : State} {t : Tid} {evs : List Ev} (hqw : QW s)
+    (hs : stepIface cfg s t = some (s', evs)) :
+    (s'.spc = s.spc ∨ (s.spc = SPc.blocked ∧ s'.spc = SPc.reacqQ)) ∧
+    ((s'.pause = s.pause ∧ s'.paused = s.paused) ∨
+     (s'.pause = addSet s.pause t ∧ s'.paused = s.paused) ∨
+     (s'.pause = s.pause.filter (· ≠ t) ∧ (s.th t).pc = IPc.cAcqP ∧
+        s'.paused = s.paused.filter (· ≠ t))) := by
+  have hwq : (wakeQ s).1.pause = s.pause ∧ (wakeQ s).1.paused = s.paused ∧
+      ((wakeQ s).1.spc = s.spc ∨ (s.spc = SPc.blocked ∧ (wakeQ s).1.spc = SPc.reacqQ)) := by
+    unfold wakeQ; split
+    · rename_i hw; simp [hqw hw]
+    · simp
+  have hwp : (wakeOneP s).1.pause = s.pause ∧ (wakeOneP s).1.paused = s.paused ∧
+      (wakeOneP s).1.spc = s.spc := by
+    unfold wakeOneP; split <;> simp [setPc]
+  unfold stepIface at hs
+  split at hs
+  · split at hs
+    · cases hs
+    · rename_i op rest _
+      simp only [Option.some.injEq] at hs
+      have : (startOp s t op rest).1.spc = s.spc ∧ (startOp s t op rest).1.pause = s.pause ∧
+          (startOp s t op rest).1.paused = s.paused := by
+        unfold startOp
+        cases op <;> simp only [setPc] <;> (repeat' split) <;> simp
+      rw [hs] at this
+      exact ⟨Or.inl this.1, Or.inl this.2⟩
+  all_goals
+    (repeat' split at hs) <;>
+    first
+    | (simp only [Option.some.injEq, Prod.mk.injEq] at hs
+       obtain ⟨rfl, -⟩ := hs
+       first
+       | (refine ⟨Or.inl ?_, Or.inl ?_⟩ <;> simp [setPc]; done)
+       | (refine ⟨Or.inl ?_, Or.inr (Or.inl ?_)⟩ <;> simp [setPc]; done)
+       | (have e := ‹wakeQ s = _›; rw [e] at hwq
+          exact ⟨by simpa [setPc] using hwq.2.2,
+                 Or.inl (by simpa [setPc] using And.intro hwq.1 hwq.2.1)⟩)
+       | (have e := ‹wakeOneP s = _›; rw [e] at hwp; simp only at hwp
+          refine ⟨Or.inl ?_, Or.inl ?_⟩ <;> simp [setPc, hwp]; done)
+       | (exact ⟨Or.inl (by simp [setPc]),
+                 Or.inr (Or.inr ⟨by simp [setPc], by assumption, by simp [setPc]⟩)⟩))
+    | (cases hs; done)
+
+theorem pinv_stepIface {cfg : Cfg} {s s' : State} {t : Tid} {evs : List Ev} (h : PInv s)
+    (hqw : QW s) (hs : stepIface cfg s t = some (s', evs)) : PInv s' := by
+  obtain ⟨hspc, hp⟩ := stepIface_pause hqw hs
+  have hloop : InLoop s.spc → InLoop s'.spc := by
+    intro hl
+    rcases hspc with e | ⟨_, e⟩
+    · rw [e]; exact hl
+    · rw [e]; trivial
+  rcases hp with ⟨e1, e2⟩ | ⟨e1, e2⟩ | ⟨e1, _, e2⟩
+  · exact ⟨by rw [e1, e2]; exact h.sub, by rw [e2]; exact fun hne => hloop (h.loop hne)⟩
+  · refine ⟨?_, by rw [e2]; exact fun hne => hloop (h.loop hne)⟩
+    rw [e1, e2]; intro x hx; exact mem_addSet.mpr (Or.inl (h.sub x hx))
+  · refine ⟨?_, ?_⟩
+    · rw [e1, e2]; intro x hx
+      simp only [List.mem_filter] at hx ⊢
+      exact ⟨h.sub x hx.1, hx.2⟩
+    · rw [e2]; intro hne
+      apply hloop; apply h.loop
+      intro he; rw [he] at hne; simp at hne
+
+theorem reachable_pinv {cfg : Cfg} {progs : Tid → List Op} {s : State}
+    (hr : Reachable cfg progs s) : PInv s := by
+  induction hr with
+  | init => exact ⟨by simp [init], by simp [init]⟩
+  | @step s s' t evs hr hs ih =>
+    have hq := (reachable_inv hr).2
+    unfold step at hs
+    split at hs
+    · exact pinv_stepSolver ih hs
+    · exact pinv_stepIface ih hq hs
+
+/-- interface steps never touch the execution log or the solver's counters -/
+theorem stepIface_execLog {cfg : Cfg} {s s' : State} {t : Tid} {evs : List Ev}
+    (hs : stepIface cfg s t = some (s', evs)) :
+    s'.execLog = s.execLog ∧ s'.count = s.count := by
+  have hwq : (wakeQ s).1.execLog = s.execLog ∧ (wakeQ s).1.count = s.count := by
+    unfold wakeQ; split <;> simp
+  have hwp : (wakeOneP s).1.execLog = s.execLog ∧ (wakeOneP s).1.count = s.count := by
+    unfold wakeOneP; split <;> simp [setPc]
+  unfold stepIface at hs
+  split at hs
+  · split at hs
+    · cases hs
+    · rename_i op rest _
+      simp only [Option.some.injEq] at hs
+      have : (startOp s t op rest).1.execLog = s.execLog ∧
+          (startOp s t op rest).1.count = s.count := by
+        unfold startOp
+        cases op <;> simp only [setPc] <;> (repeat' split) <;> simp
+      rw [hs] at this; exact this
+  all_goals
+    (repeat' split at hs) <;>
+    first
+    | (simp only [Option.some.injEq, Prod.mk.injEq] at hs
+       obtain ⟨rfl, -⟩ := hs
+       first
+       | (simp [setPc]; done)
+       | (have e := ‹wakeQ s = _›; rw [e] at hwq; simpa [setPc] using hwq)
+       | (have e := ‹wakeOneP s = _›; rw [e] at hwp; simpa [setPc] using hwp))
+    | (cases hs; done)
+
+@[simp] theorem checkPause_count (s : State) : (checkPause s).count = s.count := by
+  unfold checkPause; split <;> rfl
+@[simp] theorem checkPause_paused (s : State) : (checkPause s).paused = s.paused := by
+  unfold checkPause; split <;> rfl
+@[simp] theorem checkPause_execLog (s : State) : (checkPause s).execLog = s.execLog := by
+  unfold checkPause; split <;> rfl
+@[simp] theorem runQueue_count (cfg : Cfg) (ctx : Ctx) (s : State) :
+    (runQueue cfg ctx s).count = s.count := by
+  rcases runQueue_eq cfg ctx s with ⟨id, rest, c, _, e⟩ | ⟨pc, _, e⟩ <;> rw [e]
+@[simp] theorem runQueue_paused (cfg : Cfg) (ctx : Ctx) (s : State) :
+    (runQueue cfg ctx s).paused = s.paused := by
+  rcases runQueue_eq cfg ctx s with ⟨id, rest, c, _, e⟩ | ⟨pc, _, e⟩ <;> rw [e]
+@[simp] theorem runQueue_execLog (cfg : Cfg) (ctx : Ctx) (s : State) :
+    (runQueue cfg ctx s).execLog = s.execLog := by
+  rcases runQueue_eq cfg ctx s with ⟨id, rest, c, _, e⟩ | ⟨pc, _, e⟩ <;> rw [e]
+
+/-- the solver's time-step counter moves only at the start of an iteration, and the
+solver never drops an honoured pause request -/
+theorem stepSolver_count {cfg : Cfg} {s s' : State} {evs : List Ev}
+    (hs : stepSolver cfg s = some (s', evs)) :
+    (s.spc ≠ SPc.start → s'.count = s.count) ∧ (∀ t ∈ s.paused, t ∈ s'.paused) := by
+  unfold stepSolver at hs
+  split at hs
+  all_goals rename_i hspc
+  all_goals
+    (repeat' split at hs) <;>
+    first
+    | (simp only [Option.some.injEq, Prod.mk.injEq] at hs
+       obtain ⟨rfl, -⟩ := hs
+       refine ⟨fun hne => ?_, fun t ht => ?_⟩
+       · first
+         | (exact absurd hspc hne)
+         | ((repeat' split) <;> simp [wakeAllP]; done)
+       · first
+         | ((repeat' split) <;> simp [wakeAllP, ht]; done)
+         | (exact mem_unionSet.mpr (Or.inl ht))
+         | (simp only; split
+            · exact mem_unionSet.mpr (Or.inl ht)
+            · exact ht))
+    | (cases hs; done)
+
+/-- the execution log grows only when the solver, holding `res_lock` inside
+`run_queued_commands`, runs the command it popped -/
+theorem stepSolver_execLog {cfg : Cfg} {s s' : State} {evs : List Ev}
+    (hs : stepSolver cfg s = some (s', evs)) :
+    s'.execLog = s.execLog ∨ ∃ ctx id c, s.spc = SPc.runAcqRes ctx id c ∧
+      s'.execLog = s.execLog ++ [(id, s.count, cmdVal c s.count)] := by
+  unfold stepSolver at hs
+  split at hs
+  all_goals rename_i hspc
+  all_goals
+    (repeat' split at hs) <;>
+    first
+    | (simp only [Option.some.injEq, Prod.mk.injEq] at hs
+       obtain ⟨rfl, -⟩ := hs
+       first
+       | (left; (repeat' split) <;> simp [wakeAllP]; done)
+       | (right; exact ⟨_, _, _, hspc, rfl⟩))
+    | (cases hs; done)
+
+theorem reachable_run {cfg : Cfg} {progs : Tid → List Op} {s : State} (l : List Tid)
+    (hr : Reachable cfg progs s) (h : runs cfg s l = true) : Reachable cfg progs (run cfg s l) := by
+  induction l generalizing s with
+  | nil => exact hr
+  | cons t ts ih =>
+    unfold runs at h; unfold run
+    split at h
+    · rename_i s1 evs hstep
+      exact ih (Reachable.step hr hstep) h
+    · cases h
 
 end PysphVerif.Controller
